@@ -212,7 +212,7 @@ class Ctx:
                 if an != "Init":
                     acts[an] = acts.get(an, 0) + int(tot)
             self.cov["tlc_runs"][-1]["action_counts"] = acts
-            never = sorted(a for a, c in acts.items() if c == 0)
+            never = sorted(a for a, c in acts.items() if c == 0 and a != "Next")
             if never:
                 raise ToolError("anti-vacuity: actions never taken in %s: %s" % (name, never))
         if exhaustive and not simulate:
